@@ -219,6 +219,18 @@ STATE_LETTERS = {
     "wave-1": ("wave", "wave", "wave", 1.0),
 }
 
+# letters with EXACT zeros in individual components of the tangential vectors on
+# fractures (3-d models: two tangential components): letter -> (base letter, axis).
+# In every fracture cell the tangential displacement jump and the tangential contact
+# traction are aligned with local tangential basis vector number ``axis`` (the other
+# component is exactly 0.0, at the current and the previous time level), in the sliding,
+# the sticking and the open-with-compressive-traction regimes; cells in the clearly open
+# regime (tensile normal traction) get all-zero tangential vectors. Such states are
+# inside the smooth region (the norm is only non-smooth at the zero vector, and there
+# its term is switched off by the open-state characteristic function), but they are
+# where special-case code lives.
+ALIGNED_LETTERS = {"axis1": ("lin-1", 0), "axis2": ("wave-0.3", 1)}
+
 SCALAR_VARS = ("pressure", "temperature")
 FLUX_VARS = ("interface_darcy_flux", "interface_fourier_flux", "interface_enthalpy_flux", "well_flux", "well_enthalpy_flux")
 
@@ -230,7 +242,7 @@ def raw_state(model, letter, salt=0):
     :func:`contact_fill` afterwards (they decide the regime of the contact laws).
     """
     es = model.equation_system
-    ps, pf, pu, amp = STATE_LETTERS[letter]
+    ps, pf, pu, amp = STATE_LETTERS[ALIGNED_LETTERS[letter][0] if letter in ALIGNED_LETTERS else letter]
     x = np.array(es.get_variable_values(iterate_index=0), dtype=float)
     for iv, var in enumerate(es.variables):
         dofs = es.dofs_of([var])
@@ -270,7 +282,7 @@ REGIME_VALUES = {
 }
 
 
-def contact_fill(model, x, xprev, salt=0):
+def contact_fill(model, x, xprev, salt=0, axis=None):
     """Fill u_interface and contact_traction of ``x`` such that every fracture cell sits
     clearly inside one regime of the contact laws (cycling open / stick / slip /
     open-with-compressive-traction over the cells); ``xprev`` gets a different jump so
@@ -316,6 +328,15 @@ def contact_fill(model, x, xprev, salt=0):
             if nd == 3:
                 target[1, f] = -0.6 * ut
                 trac[1, f] = 0.5 * tt
+            if axis is not None:
+                # exact zeros: everything tangential along basis vector ``axis`` only;
+                # nothing tangential at all in the clearly open (tensile) cells
+                keep_j, keep_t = target[0, f], trac[0, f]
+                target[: nd - 1, f] = 0.0
+                trac[: nd - 1, f] = 0.0
+                if reg != "open":
+                    target[axis, f] = keep_j
+                    trac[axis, f] = keep_t
         bg = np.zeros(udofs.size)
         pos = 0
         for v in uvars:
@@ -326,10 +347,41 @@ def contact_fill(model, x, xprev, salt=0):
             pos += nd * n
         # positions in udofs follow the order of uvars (dofs_of concatenates per variable)
         tgt = target.ravel("F")
+        if axis is not None:
+            bg[:] = 0.0
         corr = np.linalg.pinv(J) @ (tgt - J @ bg)
-        vec[udofs] = bg + corr
+        uint = bg + corr
+        if axis is not None:
+            # remove round-off dust of the pseudo-inverse so that the zero components of
+            # the jump are sums of exact zeros
+            uint[np.abs(uint) < 1e-13] = 0.0
+        vec[udofs] = uint
         vec[tdofs] = trac.ravel("F")
     return x, xprev
+
+
+def exact_zero_report(model, x):
+    """(number of tangential components that are exactly 0.0 in the jump, in the traction,
+    in t_t + c*du_t) over the fracture cells whose tangential vector is not all-zero."""
+    import porepy as pp
+
+    es = model.equation_system
+    nd = model.nd
+    fracs = model.mdg.subdomains(dim=nd - 1)
+    if nd != 3 or not fracs or "contact_traction" not in {v.name for v in es.variables}:
+        return (0, 0, 0)
+    ev = lambda op: np.atleast_1d(np.asarray(es.evaluate(op, False, x), dtype=float))
+    tng = model.tangential_component(fracs)
+    out = []
+    c = float(np.atleast_1d(ev(model.contact_mechanics_numerical_constant(fracs)))[0])
+    u_tp = tng @ model.plastic_displacement_jump(fracs)
+    t_t = ev(tng @ model.contact_traction(fracs))
+    vecs = [ev(tng @ model.displacement_jump(fracs)), t_t, t_t + c * ev(pp.ad.time_increment(u_tp))]
+    for v in vecs:
+        m = v.reshape((nd - 1, -1), order="F")
+        nonzero_vec = np.any(m != 0.0, axis=0)
+        out.append(int(np.sum((m == 0.0)[:, nonzero_vec])))
+    return tuple(out)
 
 
 def indicators(model, x):
@@ -400,20 +452,47 @@ def regime_names(ind):
     return res
 
 
-def margin(ind):
+def margin(ind, dilation=True):
+    """Smallest |argument| of a non-smooth function that is ACTIVE in its cell.
+
+    Inactive arguments: in cells with negative friction bound the tangential equation is
+    ``characteristic * t_t`` with characteristic == 1 exactly (b_p = max(b, 0) = 0), so
+    the norm / max of the tangential sum are multiplied by an exact zero in value and
+    Jacobian; the norm of the tangential jump only enters the fracture gap, i.e. the
+    argument of the normal max, which is switched off in open cells and multiplied by
+    tan(0) = 0 without dilation.
+    """
     if not ind:
         return np.inf
-    return min(float(np.min(np.abs(v))) for v in ind.values())
+    n = ind["normal"].size
+    free = ind["bound"] < 0
+    opened = ind["normal"] < 0
+    vals = []
+    for k, v in ind.items():
+        a = np.abs(np.asarray(v, dtype=float))
+        if k in ("slip", "tsum"):
+            a = a[~free]
+        elif k == "ut":
+            a = a[~opened] if dilation else a[:0]
+        if a.size:
+            vals.append(float(a.min()))
+    return min(vals) if vals else np.inf
 
 
 def make_states(model, letter, salt=0):
     """(x0, xprev): the state where the Jacobian is tested and a different state for the
     previous time step."""
-    salt = salt + list(STATE_LETTERS).index(letter)
+    axis = None
+    if letter in ALIGNED_LETTERS:
+        axis = ALIGNED_LETTERS[letter][1]
+        salt = salt + 7 + axis
+    else:
+        salt = salt + list(STATE_LETTERS).index(letter)
     x0 = raw_state(model, letter, salt)
-    prev_letter = {"wave-0.3": "lin-1", "lin-1": "wave-0.3"}.get(letter, "wave-0.3")
+    base = ALIGNED_LETTERS[letter][0] if axis is not None else letter
+    prev_letter = {"wave-0.3": "lin-1", "lin-1": "wave-0.3"}.get(base, "wave-0.3")
     xp = raw_state(model, prev_letter, salt + 5)
-    x0, xp = contact_fill(model, x0, xp, salt)
+    x0, xp = contact_fill(model, x0, xp, salt, axis=axis)
     x0 = _make_admissible(model, x0)
     xp = _make_admissible(model, xp)
     return x0, xp
